@@ -92,7 +92,9 @@ class World:
             return []
         text = bytes(k["writer"].sink).decode("latin1") if k["kind"] != "tty" else "".join(k["stdout"].sink)
         try:
-            els = split_messages(text)
+            # (a message that is still being written - an implementation may hand it to the stream in several writes - is not on
+            #  the stream yet; one that was broken or interleaved never parses, also later)
+            els = split_messages(text, allow_partial_tail=True)
         except Exception:
             return [-1]
         out = []
